@@ -367,6 +367,25 @@ def run(ctx):
             exprs += [json.loads(l) for l in open(CORPUS) if l.strip()]
         n = 400 if not ctx.thorough else 12000
         for _ in range(n):
+            if rng.random() < 0.15:
+                # expressions around a special operator (3-4 factor Kronecker products, multiplicities, Hermitian composites)
+                S = G.special(rng.choice([1, 2]))
+                r, c = gen.shape_of(S)
+                form = rng.choice(["axpy", "matarr", "densify", "kron", "sub", "scaled"])
+                if form == "axpy":
+                    exprs.append(["add", ["smul", EG.scal(), ["op", S]], ["op", S]])
+                elif form == "matarr":
+                    dt = G.dt()
+                    exprs.append(["matmul", ["op", S], ["arr", dt, c, 2, G.mat(dt, c, 2)]])
+                elif form == "densify":
+                    exprs.append(["densify", ["add", ["op", S], ["op", S]]])
+                elif form == "kron":
+                    exprs.append(["kron", ["op", S], EG.leaf(rng.choice([1, 2]), rng.choice([1, 2]))])
+                elif form == "sub":
+                    exprs.append(["sub", ["op", S], EG.leaf(r, c)])
+                else:
+                    exprs.append(["muls", ["matmul", ["op", S], EG.leaf(c, rng.choice([1, 2]))], EG.scal()])
+                continue
             r, c = rng.choice([(1, 1), (2, 2), (2, 2), (3, 3), (2, 3), (3, 2), (1, 3), (4, 4), (2, 4), (3, 1)])
             exprs.append(EG.ex(r, c, rng.choice([1, 2, 2, 3, 3, 4])))
     for i in range(0, len(exprs), 500):
